@@ -4,7 +4,7 @@ from props import heapcheck, heapspec, segspec
 
 GEN_MODULES = ["Vm"]
 ASSUMPTIONS = ["theorems: Linked/Clean invariants of Model/Seg.lean + Model/Action.lean for every action program and its garbage collection; "
-               "reverseSlots, bidi, linkClusters, positions and glyph ids are not covered by a theorem - they are decided only by the end-to-end predicate on the implementation's output",
+               "the bidi pass, mirroring, finiteness of positions, glyph ids and the index permutation (until Proofs/IndexPerm) are not covered by a theorem - they are decided only by the end-to-end predicate on the implementation's output",
                "the loader's acceptance tests are not modelled: the component harness only runs programs the real loader accepted",
                "scalar opcodes inside action code use the regenerated Gen.Vm bodies"]
 TRUSTED = ["hand-written model GrVerif/Model/{Seg,Action}.lean (tied by correspondence on action programs)", "tools/fontsynth.py (font synthesiser) and tools/heapgen.py"]
@@ -24,7 +24,7 @@ def run(ctx):
     q = ctx.quick()
     heapcheck.component(ctx, res, pred_heap, 3000 if q else 60000, "predicate: stream walk / last / prev inverse / no deleted slot in the stream")
     heapcheck.end_to_end(ctx, res, pred_seg, 150 if q else 2500, 6 if q else 12, 10 if q else len(heapcheck.WORDS))
-    heapcheck.shape_stage(ctx, res, 120 if q else 3000, 6 if q else 12)
+    heapcheck.shape_stage(ctx, res, 120 if q else 3000, 6 if q else 12, pred=pred_seg)
     return res.as_dict()
 
 
